@@ -77,6 +77,35 @@ MergeKvOK(kt, ord, ok, stable, runs, out) ==
     /\ RunsSorted(kt, ord, [r \in 1..Len(runs) |-> Keys(runs[r])])
     /\ ok => MergePairs(kt, ord, runs, out) /\ (stable => StableMerge(runs, out))
 
+(* loser tree driven by hand: peek before every pop.  peeks[i] is the option (<<>> / <<v>>) that *)
+(* peek() returned before the i-th successful pop, last the option it returned once the tree was  *)
+(* exhausted: peek must announce exactly the element the next pop delivers                        *)
+PeekPopOK(kt, ord, ok, runs, peeks, last, out) ==
+    /\ MergeOK(kt, ord, ok, runs, out)
+    /\ ok => /\ Len(peeks) = Len(out)
+             /\ \A i \in 1..Len(out) : peeks[i] = <<out[i]>>
+             /\ last = <<>>
+
+(* ------------------------------------------------------------------ comparison kernels (i32) *)
+Sign(x, y) == IF x < y THEN -1 ELSE IF x > y THEN 1 ELSE 0
+(* element-wise three-way comparison of two slices (SimdComparator::compare_i32_slices,           *)
+(* SimdOperations::parallel_compare_i32): Err exactly... at least for unequal lengths; for equal   *)
+(* lengths a refusal is accepted, an answer must be the sign of every pair                         *)
+CompareOK(a, b, ok, out) ==
+    IF Len(a) # Len(b) THEN ~ok
+    ELSE ok => /\ Len(out) = Len(a)
+               /\ \A i \in 1..Len(a) : out[i] = Sign(a[i], b[i])
+(* minimum of a slice as an option <<>> / << <<index, value>> >> (0-based index of the FIRST       *)
+(* minimum: what both the scalar and the vector path answer)                                       *)
+ArgMinOK(a, r) ==
+    IF a = <<>> THEN r = <<>>
+    ELSE /\ Len(r) = 1
+         /\ LET i == r[1][1] + 1
+                v == r[1][2]
+            IN /\ i \in 1..Len(a) /\ a[i] = v
+               /\ \A j \in 1..Len(a) : v <= a[j]
+               /\ \A j \in 1..(i - 1) : a[j] # v
+
 (* ------------------------------------------------------------------ contract: large regime *)
 (* the event carries projections only: lengths, an order-independent multiset digest          *)
 (* (sum and xor of a 60-bit per-element mix, as 30-bit halves) of input and output, and the    *)
